@@ -8,9 +8,8 @@
 """TBW."""
 
 import logging
-import operator
 import warnings
-from collections.abc import Callable, Mapping, Sequence
+from collections.abc import Mapping, Sequence
 from copy import deepcopy
 from numbers import Number
 from typing import TYPE_CHECKING, Any, NewType, Optional
@@ -264,10 +263,22 @@ class Processor:
         >>> processor.get("pipeline.characteristics.quantum_efficiency")
         array(0.1)
         """
-        func: Callable = operator.attrgetter(key)
+        *body, att = key.split(".")
 
         try:
-            result = func(self)
+            # An item of a 'dict' or a model argument is not always an attribute
+            # (see methods '.has' and '.set')
+            result: Any = self
+            for part in body:
+                if isinstance(result, dict) and part in result:
+                    result = result[part]
+                else:
+                    result = getattr(result, part)
+
+            if isinstance(result, Mapping) and att in result:
+                result = result[att]
+            else:
+                result = getattr(result, att)
         except (KeyError, ValueError):
             if default is not MISSING:
                 return default
